@@ -220,6 +220,8 @@ def exec_case(case):
     d = runner.new_dir("y")
     import yaml
     cfg = {"dry": {"enabled": True, "min_duplicate_lines": case["W"], "min_occurrences": case["min_occ"], "storage_mode": case["storage"]}}
+    for lang, v_ in (case.get("lang_mo") or {}).items():
+        cfg["dry"][lang] = {"min_occurrences": v_}  # documented per-language override (may be lower or higher than the global value)
     extra = {".thailint.yaml": yaml.safe_dump(cfg)}
     runner.write_tree(d, dict(case["files"], **extra))
     r = runner.cli(["dry", "--format", "json"] + case["targets"], d)
@@ -271,7 +273,13 @@ def run(ctx):
             targets = [n for n in names if n.startswith("src/")] + ["lib"]   # explicit files + a directory (disjoint)
         else:
             targets = ["lib", "src"]
-        cases.append({"i": i, "W": W, "min_occ": mo, "files": files, "runs": runs, "storage": rng.choice(["memory", "memory", "tempfile"]), "targets": targets})
+        lang_mo = {}
+        if rng.random() < 0.4:
+            if rng.random() < 0.7:
+                lang_mo["python"] = rng.choice([2, 3, 4])
+            if rng.random() < 0.7:
+                lang_mo["typescript"] = lang_mo["javascript"] = rng.choice([2, 3, 4])  # (a run may span .ts and .js files: one value for both)
+        cases.append({"i": i, "W": W, "min_occ": mo, "lang_mo": lang_mo, "files": files, "runs": runs, "storage": rng.choice(["memory", "memory", "tempfile"]), "targets": targets})
     outs = runner.pmap(exec_case, cases, timeout=600)
     for case, o in zip(cases, outs):
         if not o.get("ok"):
@@ -285,7 +293,12 @@ def run(ctx):
         if v["rows"] is None or v["exit"] not in (0, 1):
             ctx.inconclusive_if(True, "case %d: dry run failed: exit %s %s" % (case["i"], v["exit"], v["err"]))
             continue
-        W, mo = case["W"], case["min_occ"]
+        W, mo_global = case["W"], case["min_occ"]
+        lang_mo = case.get("lang_mo") or {}
+
+        def mo_of(family):
+            return lang_mo.get("python" if family == "py" else "typescript", mo_global)
+        rep["per_language_min_occurrences"] = lang_mo
         text = {f: t.split("\n") for f, t in case["files"].items()}
         viols = []
         for rule, fp, line, msg in v["rows"]:
@@ -336,6 +349,7 @@ def run(ctx):
         planted_ranges = []
         for vi in viols:
             ctx.count("min_occurrences_checked")
+            mo = mo_of(vi["lang"])
             if vi["occ"] < mo:
                 ctx.discrepancy("below-min-occurrences", "case %d: %s:%d reported with %d occurrence(s) although min_occurrences is %d" % (case["i"], vi["file"], vi["line"], vi["occ"], mo), rep, files)
         for r in case["runs"]:
@@ -343,6 +357,9 @@ def run(ctx):
                 planted_ranges += [tuple(p) for p in r["places"]]
                 ctx.count("periodic_regions", len(r["places"]))
                 continue
+            mo = mo_of(r["family"])
+            if lang_mo:
+                ctx.count("runs_judged_under_language_override")
             should = r["K"] >= W and r["M"] >= mo
             for pi, (pf, a, b) in enumerate(r["places"]):
                 planted_ranges.append((pf, a, b))
